@@ -963,7 +963,13 @@ class CodeGenerator(NodeVisitor):
     def visit_Block(self, node: nodes.Block, frame: Frame) -> None:
         """Call a block and register it for the template."""
         level = 0
-        if frame.toplevel:
+        # Call sites in the root render function of a child template must
+        # not render: the blocks are rendered by the parent. That is the
+        # case for top-level frames, and for frames below a top-level
+        # for/with, which inherit require_output_check like the output
+        # statements next to the block do. Frames inside a block, macro or
+        # set block have it turned off.
+        if frame.toplevel or frame.require_output_check:
             # if we know that we are a child template, there is no need to
             # check if we are one
             if self.has_known_extends:
